@@ -186,7 +186,9 @@ def run(ctx: lib.Ctx) -> None:
                 '(BLS on a small share: py_ecc is slow), random chain ids. non-trivial = a group that must be signed; distinct = distinct '
                 '(curve, key, chain id, group)')
     keys = {cv: [make_key(rng, cv) for _ in range(2 if cv != b'BL' else 1)] for cv in CURVES}
-    problems = tables(ctx)
+    import concurrent.futures
+    pool = concurrent.futures.ThreadPoolExecutor(max_workers=1)
+    fut_tables = pool.submit(tables, ctx)
     cases = []
     for p in sorted(glob.glob(os.path.join(lib.VERIF, 'corpus', PROP, '*.json'))):
         d = json.load(open(p))
@@ -223,6 +225,8 @@ def run(ctx: lib.Ctx) -> None:
 
     bad = ctx.coq_mismatches('sign', IMPORTS, 'run_case', 'case_eqb', 'kcurve * group * option bytes * bytes', 'result (bytes * N * bytes)',
                              coq_cases, shard=ctx.n(25, 100))
+    problems = fut_tables.result()
+    pool.shutdown()
     if reported == 0 and (bad or problems):
         rep = {'correspondence': 'C23/OperationGroup.sign+binary_payload vs Client.OpSign.run_case', 'disagreements': len(bad), 'tables': problems}
         if bad:
